@@ -900,7 +900,10 @@ func (g *gen) topFunc(leaf bool) {
 	var ps []string
 	for i, t := range f.params {
 		ps = append(ps, pnames[i]+" "+t)
-		g.declare(pnames[i], t)
+		v := g.declare(pnames[i], t)
+		if i == 0 && f.depth {
+			v.typ = "depth" // never picked by the random statements: the recursion must terminate
+		}
 	}
 	xs := ""
 	if f.variadic != "" {
